@@ -141,6 +141,32 @@ CLAIMED = {
          "10-letter alphabet - 'bracketed groups are never split' is checked there for balanced inputs only (the library misbehaves on "
          "unbalanced ones) and is not counted as proved; strings.Index/ToUpper by A-STR; the text rendered by fmt.Sprintf in the prop "
          "shorthand is not modelled. " + TRUST),
+
+ "C06": ("proof",
+         "Candidate collection is verified per processor for an arbitrary property list and definition registry: for a nameless wire point of "
+         "pointer type exactly the definitions whose value has that type are appended, for an interface type exactly the implementers "
+         "([by-type-sound], [by-type-complete] with ghost position witnesses), for the func tag only definitions that expose the method "
+         "([func-candidates-sound]); nothing else is touched ([others-untouched], [earlier-candidates-kept]); every appended candidate is "
+         "assignable to the target type ([candidates-assignable], via the trusted reflect axioms); the option predicates Type / "
+         "InterfaceType / FuncName / FuncNameAndResult / Or / And are verified against their defining equations; Inject sets every "
+         "non-self candidate exactly once for slices and never the holder ([slice-sets-all], [never-self], [records-injects]); "
+         "the reflect.Value.Call arity obligation in FuncNameAndResult is discharged after the repair of F-C06.",
+         "DESIGN.md section 5 C06",
+         "contract-based deductive verification (govc WP over go/ssa, z3/cvc5)",
+         "DefinitionRegistry.GetMetas is used through its interface-level contract (sound, complete, duplicate-free, any order); its "
+         "implementation over sync.Map.Range is not yet under contract. package reflect is axiomatised (A-REFLECT). With substituting "
+         "post-processors the injected version's type is assumed assignable (named site assumption). " + TRUST),
+ "C07": ("proof",
+         "By-name branch: the candidate appended for a named single-valued point is exactly the definition registered under that name if it "
+         "is assignable to the field, otherwise nil ([by-name-candidate]), however many definitions share its type; a nil/absent candidate "
+         "makes a required point fail and leaves an optional one untouched (C08 [every-component-property-narrowed], Inject "
+         "[required-empty-errors]); names: GetComponentName is the custom name when non-empty, else the type id ([name-of-component]); "
+         "RegisterSingleton never replaces an existing entry ([no-two-under-one-name]); GetMetaByName returns the entry or nil; the "
+         "reflect.Value.Set assignability precondition on the by-name path is discharged after the repair of F-C07.",
+         "DESIGN.md section 5 C07",
+         "contract-based deductive verification (govc WP over go/ssa, z3/cvc5)",
+         "reflectx.Id (type id) and reflect are trusted (A-REFLECT); sync2.Map by trusted sequential contracts; that definition keys and "
+         "singleton keys agree goes through GetMetaOrRegister, which is not yet under contract. " + TRUST),
 }
 
 NOT_APPLICABLE = {
